@@ -285,10 +285,14 @@ class DBStorage(BaseStorage):
             # expiration tags are also added for the garbage collector
             tags = set()
             for tag in event.tags:
+                if len(tag) < 2:
+                    # a tag without a value matches no '#x' filter (live matching and the
+                    # LMDB index agree); it used to be indexed as '' or to raise IndexError
+                    continue
                 if tag[0] in ("delegation", "expiration"):
                     tags.add((tag[0], tag[1]))
                 elif len(tag[0]) == 1:
-                    tags.add((tag[0], tag[1] if len(tag) > 1 else ""))
+                    tags.add((tag[0], tag[1]))
             if tags:
                 await conn.execute(
                     self.tag_insert_query,
